@@ -80,7 +80,7 @@ static std::string run_poisson(int poly, int lmin, int seed, long* npts) {
     if (mind < l_min * (1 - 1e-9)) { snprintf(buf, sizeof buf, "sample-points-closer-than-l_min: %.9g < %.9g (%zu points)", mind, l_min, pts.size()); return buf; } return "ok"; }
 
 static void explore(Result& R) {
-    const bool th = R.args.thorough(); setup(); const int K = th ? 12 : 2; long cases = 0, ok = 0, rej = 0, unit = 0, npts = 0, poisson_nonempty = 0; double worst_v = 0, worst_d = 0;
+    const bool th = R.args.thorough(); setup(); const int K = th ? 32 : 4; long cases = 0, ok = 0, rej = 0, unit = 0, npts = 0, poisson_nonempty = 0; double worst_v = 0, worst_d = 0;
     std::string dir = std::string(getenv("VERIF_DIR") ? getenv("VERIF_DIR") : ".") + "/build/run/C13-" + std::to_string(getpid());
     for (int p = 0; p < (int)g_polys.size(); p++) for (int l = 0; l < 3; l++) for (int t = 0; t < 2; t++) for (int k = 0; k < (t ? K : 1); k++) {
         if (!g_polys[p].valid && l != 1) continue;
